@@ -318,6 +318,47 @@ func c08Scenarios() []scenario {
 			})
 		}
 	}
+	// ---- sessions that end in a resume the engine cannot perform (resume limit reached; the waiting run's flow gone) with three
+	// and four runs nested through enter_flow still open: everything that gets a time stamp gets it in a fixed order
+	for _, depth := range []int{3, 4} {
+		for _, why := range []string{"limit", "flow_gone"} {
+			depth, why := depth, why
+			add(fmt.Sprintf("engine/nested-%d-runs-failed-at-resume/%s", depth, why), "runs of a session visited in map order", func() string {
+				b := &Behaviour{NFlows: depth, NNodes: 1, MaxSteps: 20, MaxResumes: 1, Trig: "manual", Trigch: -1, Plan: []int{}}
+				for f := 1; f <= depth; f++ {
+					d := NodeDef{Kind: "enter", D1: 0, D2: 0, Dflt: true, Flow: f + 1}
+					if f == depth {
+						d = NodeDef{Kind: "wait", D1: 0, D2: 0, Dflt: true}
+					}
+					b.Def = append(b.Def, []NodeDef{d})
+					b.Empty = append(b.Empty, false)
+				}
+				b.Hist = []Call{{Op: "start", Kind: "manual", Choice: 1}}
+				if why == "flow_gone" {
+					b.MaxResumes = 5
+					b.Hist = append(b.Hist, Call{Op: "fault", Kind: "flow_gone", F: depth, N: 1})
+				}
+				b.Hist = append(b.Hist, Call{Op: "resume", Kind: "msg", Choice: 1})
+				var out strings.Builder
+				err := runBehaviour(b, &MatOpts{ResultNames: true}, "c08", func(k int, c Call, line *TLine, s flows.Session, sp flows.Sprint) {
+					if s != nil {
+						out.Write(sessionJSON(s))
+						out.WriteByte('\n')
+						if sp != nil {
+							for _, e := range sp.Events() {
+								out.Write(jsonx.MustMarshal(e))
+								out.WriteByte('\n')
+							}
+						}
+					}
+				})
+				if err != nil {
+					return "ERR " + err.Error()
+				}
+				return out.String()
+			})
+		}
+	}
 	// ---- what a finished call handed back does not change afterwards: every action definition of flows/actions/testdata (as
 	// it is, with each of its templates made contact-dependent, and with its lists cut / padded to three items) runs for one
 	// contact; then the same assets serve a session of ANOTHER contact; the first session and its events, marshalled before
